@@ -392,7 +392,7 @@ def cvc5_check(smt2: str, tlimit_s: int):
 def explore_function(registry, spec, tier, prop, root=None, split_depth=None):
     """Phase 1: explore all paths of one function; returns a JSON-able report whose obligations carry their
     queries as SMT-LIB text (solved in phase 2 by a shared process pool)."""
-    rep = {"fn": f"{spec.file}:{spec.qual}", "status": "ok", "obligations": [], "paths": 0, "queries": [], "covers": [], "roots": []}
+    rep = {"fn": f"{spec.file}:{spec.qual}" + (f"[{spec.label}]" if getattr(spec, "label", "") else ""), "status": "ok", "obligations": [], "paths": 0, "queries": [], "covers": [], "roots": []}
     t0 = time.time()
     try:
         run = FunctionRun(registry, spec, tier)
@@ -418,7 +418,7 @@ def explore_function(registry, spec, tier, prop, root=None, split_depth=None):
                 s.add(c)
             rep["covers"].append(s.to_smt2())
         for o in p["obls"]:
-            name = f"{prop}/{spec.file}:{spec.qual}/{o.name}"
+            name = f"{prop}/{spec.file}:{spec.qual}{('[' + spec.label + ']') if getattr(spec, 'label', '') else ''}/{o.name}"
             g = z3.simplify(o.goal)
             q = {"name": name, "kind": o.kind, "fn": rep["fn"], "clause": o.clause, "line": o.line, "path": pi, "goal_txt": str(g)[:300]}
             if z3.is_true(g):
@@ -435,27 +435,89 @@ def explore_function(registry, spec, tier, prop, root=None, split_depth=None):
 
 
 def solve_text(args):
-    """Phase 2 worker: decide one query given as SMT-LIB text. Returns (verdict, backend, secs, model/detail)."""
+    """Phase 2 worker: decide one query given as SMT-LIB text. Returns (verdict, backend, secs, model/detail).
+    Portfolio: cvc5 is started in the background, z3 gets a short first slice, then cvc5's answer is awaited,
+    then z3 gets the rest of the budget. Only `unsat` discharges, only `sat` refutes."""
     smt2, timeout_ms = args
     t0 = time.time()
+    cv = Cvc5Job(smt2, max(2, timeout_ms // 1000)) if ("String" in smt2 or "forall" in smt2) else None
+    z3ver = "z3-" + z3.get_version_string()
+
+    def run_z3(ms):
+        try:
+            s = z3.Solver()
+            s.set("timeout", ms)
+            s.from_string(smt2)
+            r = s.check()
+            return r, s
+        except Exception as e:  # noqa
+            return None, str(e)
+
     try:
-        s = z3.Solver()
-        s.set("timeout", timeout_ms)
-        s.from_string(smt2)
-        r = s.check()
-    except Exception as e:  # noqa
-        return "undecided", f"z3-error:{e}", time.time() - t0, None
-    dt = time.time() - t0
-    if r == z3.unsat:
-        return "discharged", "z3-" + z3.get_version_string(), dt, None
-    if r == z3.sat:
-        return "failed", "z3-" + z3.get_version_string(), dt, model_to_str(s.model())
-    v2, dt2, out = cvc5_check(smt2, max(2, timeout_ms // 1000))
-    if v2 == "unsat":
-        return "discharged", "cvc5-1.0.3", dt + dt2, None
-    if v2 == "sat":
-        return "failed", "cvc5-1.0.3", dt + dt2, out[-1500:]
-    return "undecided", f"z3:{s.reason_unknown()};cvc5:{v2}", dt + dt2, None
+        r, s = run_z3(min(2000, timeout_ms))
+        if r == z3.unsat:
+            return "discharged", z3ver, time.time() - t0, None
+        if r == z3.sat:
+            return "failed", z3ver, time.time() - t0, model_to_str(s.model())
+        if cv is not None:
+            v2, out = cv.wait()
+            if v2 == "unsat":
+                return "discharged", "cvc5-1.0.3", time.time() - t0, None
+            if v2 == "sat":
+                return "failed", "cvc5-1.0.3", time.time() - t0, out[-1500:]
+        else:
+            v2 = "not-run"
+        if timeout_ms > 2000:
+            r, s = run_z3(timeout_ms - 2000)
+            if r == z3.unsat:
+                return "discharged", z3ver, time.time() - t0, None
+            if r == z3.sat:
+                return "failed", z3ver, time.time() - t0, model_to_str(s.model())
+        reason = s.reason_unknown() if hasattr(s, "reason_unknown") else str(s)
+        return "undecided", f"z3:{reason};cvc5:{v2}", time.time() - t0, None
+    finally:
+        if cv is not None:
+            cv.kill()
+
+
+class Cvc5Job:
+    def __init__(self, smt2, tlimit_s):
+        self.fn = None
+        self.p = None
+        try:
+            with tempfile.NamedTemporaryFile("w", suffix=".smt2", delete=False) as f:
+                f.write("(set-logic ALL)\n" + smt2.replace("(set-logic ALL)", ""))
+                self.fn = f.name
+            self.tl = tlimit_s
+            self.p = subprocess.Popen(["/usr/bin/cvc5", "--strings-exp", f"--tlimit={tlimit_s*1000}", self.fn], stdout=subprocess.PIPE, stderr=subprocess.PIPE, text=True)
+        except Exception:  # noqa
+            self.p = None
+
+    def wait(self):
+        if self.p is None:
+            return "error", ""
+        try:
+            out, err = self.p.communicate(timeout=self.tl + 5)
+        except subprocess.TimeoutExpired:
+            self.kill()
+            return "unknown", "timeout"
+        first = out.strip().splitlines()[0] if out.strip() else ""
+        if first in ("sat", "unsat"):
+            return first, out
+        return "unknown", (out + err)[-300:]
+
+    def kill(self):
+        try:
+            if self.p is not None and self.p.poll() is None:
+                self.p.kill()
+        except Exception:  # noqa
+            pass
+        try:
+            if self.fn:
+                os.unlink(self.fn)
+                self.fn = None
+        except Exception:  # noqa
+            pass
 
 
 def cover_text(smt2):
